@@ -8,12 +8,16 @@ from ..model import AnalysisError
 from ..report import Check
 from ..wireshape import ShapeError
 from .codecs import codec_facts
+from .purity import codec_state, encode_stream
 
 RULES = {
     "R08.1": "the encoder's wire-shape term of every type-name head equals the reference "
              "transcribed from the 'Serialization Format' comment and the auxdata_traits "
              "specialisations of include/gtirb/AuxData.hpp (decoder conformance follows with R07.1)",
     "R08.2": "strings are UTF-8 on both sides and the count prefix is a byte count",
+    "R08.4": "Serialization.encode writes the codecs' bytes straight into the caller's stream, "
+             "and nothing else",
+    "R08.5": "no hidden state on the codec path: the bytes are a function of (type, value) only",
     "R08.3": "anchors: every type name the C++ traits and the Java codecs produce is a key of "
              "the Python codec table (exemption: 'byte', C++ only)",
 }
@@ -101,6 +105,8 @@ def run(chk: Check) -> None:
             chk.ob("R08.2", "string.%s:utf-8" % direction, ok, cf.provider(sc, direction).loc(),
                    "string %s must use UTF-8 and a byte count (%s %s)" % (direction, _s(ev), problems), 2)
     _anchors(chk, cf)
+    encode_stream(chk, "R08.4")
+    codec_state(chk, "R08.5")
 
 
 def _s(ev) -> str:
